@@ -12,6 +12,7 @@ package c16
 
 import (
 	"fmt"
+	"os"
 	"runtime"
 	"runtime/debug"
 	"sort"
@@ -163,6 +164,7 @@ type spec struct {
 	Prune    bool // sequences with ill-nested brackets: light assignments only
 	Alpha    []int // indices into alphabet; nil = the whole alphabet
 	Glue     bool  // the light trivia are fixed by position: "" at the start and after a prefix token (' #' #^), "\n" at the end, " " elsewhere
+	GlueNL   bool  // with Glue: "\n" is a second light choice in every slot except directly after #' and #^
 }
 
 func (s spec) alpha() []int {
@@ -197,6 +199,9 @@ func (s spec) describe() string {
 	light := nm(s.Light)
 	if s.Glue {
 		light = `positional: "" at the start and after ' #' #^, "\n" at the end, " " elsewhere`
+		if s.GlueNL {
+			light += `; or "\n" in any slot except directly after #' and #^`
+		}
 	}
 	return fmt.Sprintf("L=%d..%d tokens=%v light=%s heavy=%s in<=%d slots endExtra=%s hashbang=%v real=%v prune=%v cfgs=%v",
 		s.MinL, s.MaxL, an, light, nm(s.Heavy), s.MaxHeavy, nm(s.EndExtra), s.HashBang, s.Real, s.Prune, cn)
@@ -405,13 +410,16 @@ func (e *explorer) explore(s spec, workers []*wstats) {
 					rec(slot+1, h, nb)
 				}
 				if s.Glue {
+					def := tvSpace
 					switch {
 					case slot == L && L > 0:
-						try(tvNL)
+						def = tvNL
 					case slot == 0 || isPrefixTok(seq[slot-1]):
-						try(tvNone)
-					default:
-						try(tvSpace)
+						def = tvNone
+					}
+					try(def)
+					if s.GlueNL && def != tvNL && !(slot > 0 && (seq[slot-1] == 5 || seq[slot-1] == 6)) {
+						try(tvNL)
 					}
 				} else {
 					for _, k := range s.Light {
@@ -477,7 +485,8 @@ func run(r *core.Run) {
 	// compact/non-compact dispatch and newline normalisation, none of which depend on the other options
 	realCfgs := pickCfgs("default", "compact", "compact+strip")
 	var specs []spec
-	small := []int{0, 1, 2, 3, 4, 5, 6, 7, 10, 13, 15} // ( ) [ ] ' #' #^ a 1 "s\t" -
+	small := []int{0, 1, 2, 3, 4, 5, 6, 7, 10} // ( ) [ ] ' #' #^ a 1
+	lightX := append(append([]int{}, light...), tvTwoSp)
 	wide := make([]int, len(alphabet))                 // the 16 tokens plus the two-line raw string
 	for i := range wide {
 		wide[i] = i
@@ -491,11 +500,12 @@ func run(r *core.Run) {
 		}
 	} else {
 		specs = []spec{
-			{Name: "T1-L<=3-every-trivia", MinL: 0, MaxL: 3, Light: append(append([]int{}, light...), tvTwoSp), Heavy: heavy, MaxHeavy: 99, EndExtra: endX, HashBang: []bool{false, true}, Cfgs: all, Alpha: wide},
-			{Name: "T2-L<=2-real-entry", MinL: 0, MaxL: 2, Light: append(append([]int{}, light...), tvTwoSp), Heavy: heavy, MaxHeavy: 99, EndExtra: endX, HashBang: []bool{false, true}, Cfgs: realCfgs, Real: true, Alpha: wide},
-			{Name: "T3-L4-two-heavy-slots", MinL: 4, MaxL: 4, Light: light, Heavy: heavy, MaxHeavy: 2, EndExtra: endX, HashBang: []bool{false}, Cfgs: all, Prune: true},
-			{Name: "T4-L5-two-heavy-slots", MinL: 5, MaxL: 5, Glue: true, Heavy: heavy, MaxHeavy: 2, EndExtra: endX, HashBang: []bool{false}, Cfgs: all, Prune: true},
-			{Name: "T5-L6-small-alphabet", MinL: 6, MaxL: 6, Glue: true, Heavy: []int{tvSame, tvOwn}, MaxHeavy: 2, HashBang: []bool{false}, Cfgs: all, Prune: true, Alpha: small},
+			{Name: "T1-L<=2-every-trivia", MinL: 0, MaxL: 2, Light: lightX, Heavy: heavy, MaxHeavy: 99, EndExtra: endX, HashBang: []bool{false, true}, Cfgs: all, Alpha: wide},
+			{Name: "T2-L3-every-trivia", MinL: 3, MaxL: 3, Light: lightX, Heavy: heavy, MaxHeavy: 99, EndExtra: endX, HashBang: []bool{false}, Cfgs: all, Alpha: wide},
+			{Name: "T3-L<=2-real-entry", MinL: 0, MaxL: 2, Light: lightX, Heavy: heavy, MaxHeavy: 99, EndExtra: endX, HashBang: []bool{false, true}, Cfgs: realCfgs, Real: true, Alpha: wide},
+			{Name: "T4-L4-two-heavy-slots", MinL: 4, MaxL: 4, Glue: true, GlueNL: true, Heavy: heavy, MaxHeavy: 2, EndExtra: endX, HashBang: []bool{false}, Cfgs: all, Prune: true},
+			{Name: "T5-L5-two-heavy-slots", MinL: 5, MaxL: 5, Glue: true, Heavy: []int{tvSame, tvOwn, tvPara}, MaxHeavy: 2, HashBang: []bool{false}, Cfgs: all, Prune: true},
+			{Name: "T6-L6-small-alphabet", MinL: 6, MaxL: 6, Glue: true, Heavy: []int{tvSame, tvOwn}, MaxHeavy: 2, HashBang: []bool{false}, Cfgs: all, Prune: true, Alpha: small},
 		}
 	}
 	e := &explorer{r: r, reported: map[string]int{}}
@@ -547,6 +557,7 @@ func run(r *core.Run) {
 		e.explore(s, workers)
 		t1, a1 := sum()
 		perSpace[s.Name] = map[string]any{"texts": t1 - t0, "accepted": a1 - a0, "wall_s": time.Since(start).Seconds(), "cpu_s": cpuSeconds() - cpu0}
+		fmt.Fprintf(os.Stderr, "c16: %s done: %d texts, %d accepted, %.0fs wall, %.0fs cpu, %d violations so far\n", s.Name, t1-t0, a1-a0, time.Since(start).Seconds(), cpuSeconds()-cpu0, r.ViolationCount())
 	}
 	r.Extra("per_space", perSpace)
 	// extras and the literal table
